@@ -915,4 +915,727 @@ theorem gradAt_seed (T : TOps τ) (s : State τ) (a b : Addr) :
   · simp only [h, if_true]; cases s.node? a <;> rfl
   · simp [h]
 
+
+/-! ### transforming the parameter gradients commutes with everything that does not touch them -/
+
+/-- apply `f` to the table of parameter gradients -/
+def State.mapPG (f : (Nat → τ) → (Nat → τ)) (s : State τ) : State τ :=
+  { s with params := { s.params with grad := f s.params.grad } }
+
+theorem mapPG_updNode (f : (Nat → τ) → (Nat → τ)) (s : State τ) (a : Addr) (h : NodeInfo τ → NodeInfo τ) :
+    (s.mapPG f).updNode a h = (s.updNode a h).mapPG f := by
+  unfold State.updNode State.mapPG
+  simp only
+  split <;> rfl
+
+theorem mapPG_zeroFill (T : TOps τ) (f : (Nat → τ) → (Nat → τ)) (l : List Addr) :
+    ∀ s : State τ, zeroFill T (s.mapPG f) l = (zeroFill T s l).mapPG f := by
+  induction l with
+  | nil => intro s; rfl
+  | cons a rest ih => intro s; rw [zeroFill_cons, zeroFill_cons, mapPG_updNode, ih]
+
+theorem mapPG_addContribs (T : TOps τ) (f : (Nat → τ) → (Nat → τ)) (l : List (Addr × Option τ)) :
+    ∀ s : State τ, addContribs T (s.mapPG f) l = (addContribs T s l).mapPG f := by
+  induction l with
+  | nil => intro s; rfl
+  | cons x rest ih =>
+    intro s
+    obtain ⟨a, c⟩ := x
+    cases c with
+    | none => rw [addContribs_none, addContribs_none, ih]
+    | some c => rw [addContribs_some, addContribs_some, mapPG_updNode, ih]
+
+theorem mapPG_invalidateGrads (f : (Nat → τ) → (Nat → τ)) (s : State τ) (k : Nat) :
+    invalidateGrads (s.mapPG f) k = (invalidateGrads s k).mapPG f := by
+  unfold invalidateGrads State.mapPG
+  simp only
+  split <;> rfl
+
+theorem mapPG_storeValues (f : (Nat → τ) → (Nat → τ)) (s : State τ) (k : Nat) (vals : List τ) :
+    (s.mapPG f).storeValues k vals = (s.storeValues k vals).mapPG f := by
+  unfold State.storeValues State.mapPG
+  simp only
+  split <;> rfl
+
+theorem mapPG_valueOf (f : (Nat → τ) → (Nat → τ)) (s : State τ) : (s.mapPG f).valueOf? = s.valueOf? := rfl
+theorem mapPG_node (f : (Nat → τ) → (Nat → τ)) (s : State τ) : (s.mapPG f).node? = s.node? := rfl
+theorem mapPG_validAddr (f : (Nat → τ) → (Nat → τ)) (s : State τ) : (s.mapPG f).validAddr = s.validAddr := rfl
+theorem mapPG_seed (T : TOps τ) (f : (Nat → τ) → (Nat → τ)) (s : State τ) (a : Addr) :
+    seed T (s.mapPG f) a = (seed T s a).mapPG f := mapPG_updNode f s a _
+
+/-- `F` commutes with the transformation `m` of states -/
+def Commutes {α : Type} (m : State τ → State τ) (F : State τ → State τ × α) : Prop :=
+  ∀ s, F (m s) = (m (F s).1, (F s).2)
+
+theorem forwardArgsWith_commutes (m : State τ → State τ) (ev : State τ → Addr → State τ × Except Err τ)
+    (hev : ∀ a, Commutes m (fun s => ev s a)) :
+    ∀ l : List Addr, Commutes m (fun s => forwardArgsWith ev s l) := by
+  intro l
+  induction l with
+  | nil => intro s; rfl
+  | cons a rest ih =>
+    intro s
+    simp only [forwardArgsWith]
+    have h1 : ev (m s) a = (m (ev s a).1, (ev s a).2) := hev a s
+    rw [h1]
+    rcases ev s a with ⟨s1, r⟩
+    cases r with
+    | error e => rfl
+    | ok v =>
+      simp only
+      have h2 : forwardArgsWith ev (m s1) rest
+          = (m (forwardArgsWith ev s1 rest).1, (forwardArgsWith ev s1 rest).2) := ih s1
+      rw [h2]
+      rcases forwardArgsWith ev s1 rest with ⟨s2, r2⟩
+      cases r2 <;> rfl
+
+theorem applyOp_mapPG (f : (Nat → τ) → (Nat → τ)) (a : Addr) (kind : Kind τ) (n : NodeInfo τ) (xs : List τ) :
+    Commutes (State.mapPG f) (fun s => applyOp s a kind n xs) := by
+  intro s1
+  simp only [applyOp]
+  have hfail : (s1.mapPG f).failIn = s1.failIn := rfl
+  rw [hfail]
+  have hcore : ∀ s : State τ, applyOpCore (s.mapPG f) a kind n xs
+      = ((applyOpCore s a kind n xs).1.mapPG f, (applyOpCore s a kind n xs).2) := by
+    intro s
+    unfold applyOpCore
+    cases kind with
+    | param p => rfl
+    | rnd => simp only; rw [← mapPG_storeValues]; rfl
+    | op sem =>
+      simp only
+      cases sem.fwd xs with
+      | none => rfl
+      | some ys =>
+        simp only
+        cases ys[a.vid]? <;> (simp only; rw [← mapPG_storeValues]; rfl)
+  split
+  · rfl
+  · rename_i fi _
+    have : (if opFaulty kind = true then { s1.mapPG f with failIn := Option.map (fun x => x - 1) (if opFaulty kind = true then s1.failIn else none) } else s1.mapPG f)
+        = (if opFaulty kind = true then { s1 with failIn := Option.map (fun x => x - 1) (if opFaulty kind = true then s1.failIn else none) } else s1).mapPG f := by
+      split <;> rfl
+    rw [this, hcore]
+
+theorem forwardRec_mapPG (T : TOps τ) (f : (Nat → τ) → (Nat → τ)) :
+    ∀ (fuel : Nat) (a : Addr), Commutes (State.mapPG f) (fun s => forwardRec T fuel s a) := by
+  intro fuel
+  induction fuel with
+  | zero => intro a s; rfl
+  | succ fuel ih =>
+    intro a s
+    simp only [forwardRec_succ]
+    have hops : (s.mapPG f).ops = s.ops := rfl
+    have hpv : (s.mapPG f).params.value = s.params.value := rfl
+    rw [hops, hpv]
+    cases s.ops[a.oid]? with
+    | none => rfl
+    | some o =>
+      simp only
+      have key : (match o.rets[a.vid]? with
+          | none => (s.mapPG f, Except.error Err.crash)
+          | some n =>
+            match n.value with
+            | some v => (s.mapPG f, Except.ok v)
+            | none =>
+              match forwardArgsWith (forwardRec T fuel) (s.mapPG f) o.args with
+              | (s1, Except.error e) => (s1, Except.error e)
+              | (s1, Except.ok xs) => applyOp s1 a o.kind n xs)
+          = (State.mapPG f (match o.rets[a.vid]? with
+          | none => (s, Except.error Err.crash)
+          | some n =>
+            match n.value with
+            | some v => (s, Except.ok v)
+            | none =>
+              match forwardArgsWith (forwardRec T fuel) s o.args with
+              | (s1, Except.error e) => (s1, Except.error e)
+              | (s1, Except.ok xs) => applyOp s1 a o.kind n xs).1,
+            (match o.rets[a.vid]? with
+          | none => (s, Except.error Err.crash)
+          | some n =>
+            match n.value with
+            | some v => (s, Except.ok v)
+            | none =>
+              match forwardArgsWith (forwardRec T fuel) s o.args with
+              | (s1, Except.error e) => (s1, Except.error e)
+              | (s1, Except.ok xs) => applyOp s1 a o.kind n xs).2) := by
+        cases o.rets[a.vid]? with
+        | none => rfl
+        | some n =>
+          simp only
+          cases n.value with
+          | some v => rfl
+          | none =>
+            simp only
+            have h2 : forwardArgsWith (forwardRec T fuel) (s.mapPG f) o.args
+                = (State.mapPG f (forwardArgsWith (forwardRec T fuel) s o.args).1,
+                   (forwardArgsWith (forwardRec T fuel) s o.args).2) :=
+              forwardArgsWith_commutes (State.mapPG f) (forwardRec T fuel) ih o.args s
+            rw [h2]
+            rcases forwardArgsWith (forwardRec T fuel) s o.args with ⟨s1, r⟩
+            cases r with
+            | error e => rfl
+            | ok xs => exact applyOp_mapPG f a o.kind n xs s1
+      cases hk : o.kind with
+      | param p => simp only; split <;> rfl
+      | rnd => rw [hk] at key; exact key
+      | op sem => rw [hk] at key; exact key
+
+theorem forward_mapPG (T : TOps τ) (f : (Nat → τ) → (Nat → τ)) (a : Addr) :
+    Commutes (State.mapPG f) (fun s => forward T s a) := by
+  intro s
+  simp only [forward]
+  by_cases hv : s.validAddr a = true
+  · have hv' : (s.mapPG f).validAddr a = true := hv
+    rw [if_pos hv, if_pos hv']
+    exact forwardRec_mapPG T f _ a s
+  · have hv' : ¬ (s.mapPG f).validAddr a = true := hv
+    rw [if_neg hv, if_neg hv']
+
+theorem fwdPhase_mapPG (T : TOps τ) (f : (Nat → τ) → (Nat → τ)) (a : Addr) :
+    Commutes (State.mapPG f) (fun s => fwdPhase T s a) := by
+  intro s
+  simp only [fwdPhase]
+  have hn : (s.mapPG f).node? a = s.node? a := rfl
+  rw [hn]
+  cases s.node? a with
+  | none => rfl
+  | some n =>
+    simp only
+    split
+    · rfl
+    · have h := forward_mapPG T f a s
+      simp only at h
+      rw [h]
+      rcases forward T s a with ⟨s1, r⟩
+      cases r <;> rfl
+
+/-! ### `backward` only adds: a prior gradient `g` stays in front of everything the sweep accumulates -/
+
+/-- `h ↦ g + h`, pointwise over the parameters -/
+def shiftG (T : TOps τ) (g : Nat → τ) : (Nat → τ) → (Nat → τ) := fun h p => T.add (g p) (h p)
+
+theorem stepCore_shift (T : TOps τ) (hassoc : ∀ x y z : τ, T.add (T.add x y) z = T.add x (T.add y z))
+    (g : Nat → τ) (s2 : State τ) (o : OpInfo τ) (xs ys gys : List τ) :
+    stepCore T (s2.mapPG (shiftG T g)) o xs ys gys = (stepCore T s2 o xs ys gys).mapPG (shiftG T g) := by
+  unfold stepCore
+  cases o.kind with
+  | param p =>
+    simp only
+    cases gys with
+    | nil => rfl
+    | cons gy rest =>
+      simp only [State.mapPG, shiftG]
+      congr 2
+      funext q
+      by_cases hq : q = p
+      · simp [hq, hassoc, shiftG]
+      · simp [hq, shiftG]
+  | rnd => rfl
+  | op sem => simp only; rw [mapPG_addContribs]
+
+theorem backwardStep_shift (T : TOps τ) (hassoc : ∀ x y z : τ, T.add (T.add x y) z = T.add x (T.add y z))
+    (g : Nat → τ) (k : Nat) : Commutes (State.mapPG (shiftG T g)) (fun s => backwardStep T s k) := by
+  intro s
+  simp only [backwardStep_eq]
+  have hops : (s.mapPG (shiftG T g)).ops = s.ops := rfl
+  rw [hops, mapPG_valueOf]
+  cases s.ops[k]? with
+  | none => rfl
+  | some o =>
+    simp only
+    by_cases he : (!o.enabled) = true
+    · simp only [he, if_true]
+    · simp only [he]
+      cases o.args.mapM s.valueOf? with
+      | none => simp only [mapPG_zeroFill]; rfl
+      | some xs =>
+        simp only [mapPG_zeroFill, stepCore_shift T hassoc, mapPG_invalidateGrads]
+        rfl
+
+theorem sweep_shift (T : TOps τ) (hassoc : ∀ x y z : τ, T.add (T.add x y) z = T.add x (T.add y z))
+    (g : Nat → τ) : ∀ k : Nat, Commutes (State.mapPG (shiftG T g)) (fun s => sweep T k s) := by
+  intro k
+  induction k with
+  | zero => intro s; rfl
+  | succ k ih =>
+    intro s
+    have h1 : backwardStep T (s.mapPG (shiftG T g)) k
+        = ((backwardStep T s k).1.mapPG (shiftG T g), (backwardStep T s k).2) := backwardStep_shift T hassoc g k s
+    simp only [sweep]
+    rw [h1]
+    rcases backwardStep T s k with ⟨s1, r⟩
+    cases r with
+    | error e => rfl
+    | ok u => cases u; exact ih s1
+
+theorem backward_shift (T : TOps τ) (hassoc : ∀ x y z : τ, T.add (T.add x y) z = T.add x (T.add y z))
+    (g : Nat → τ) (a : Addr) : Commutes (State.mapPG (shiftG T g)) (fun s => backward T s a) := by
+  intro s
+  simp only [backward_eq]
+  have hv : (s.mapPG (shiftG T g)).validAddr a = s.validAddr a := rfl
+  rw [hv]
+  by_cases hva : (!s.validAddr a) = true
+  · simp only [hva, if_true]
+  · simp only [hva]
+    have h1 : fwdPhase T (s.mapPG (shiftG T g)) a
+        = ((fwdPhase T s a).1.mapPG (shiftG T g), (fwdPhase T s a).2) := fwdPhase_mapPG T _ a s
+    rw [h1]
+    rcases fwdPhase T s a with ⟨s1, r⟩
+    cases r with
+    | error e => rfl
+    | ok u =>
+      cases u
+      simp only [mapPG_seed]
+      exact sweep_shift T hassoc g _ _
+
+
+/-! ### invariants of the sweep -/
+
+/-- every node gradient is invalid -/
+def AllGradsInvalid (s : State τ) : Prop := ∀ a, s.gradAt a = none
+
+/-- all valid node gradients belong to operators with id `< k` -/
+def GradsBelow (k : Nat) (s : State τ) : Prop := ∀ a : Addr, k ≤ a.oid → s.gradAt a = none
+
+/-- arguments refer to smaller operator ids (the invariant that `add_operator` maintains) -/
+def ArgsBelow (s : State τ) : Prop :=
+  ∀ (i : Nat) (o : OpInfo τ), s.ops[i]? = some o → ∀ a ∈ o.args, a.oid < i
+
+theorem argsBelow_of_skel {s s' : State τ} (h : s'.skel = s.skel) (hs : ArgsBelow s) : ArgsBelow s' := by
+  intro i o' ho' a ha
+  obtain ⟨o, ho, _, hargs, _⟩ := skel_op_some h.symm ho'
+  exact hs i o ho a (hargs ▸ ha)
+
+theorem argsBelow_of_gskel {s s' : State τ} (h : s'.gskel = s.gskel) (hs : ArgsBelow s) : ArgsBelow s' := by
+  intro i o' ho' a ha
+  obtain ⟨o, ho, _, hargs, _⟩ := gskel_op_some h.symm ho'
+  exact hs i o ho a (hargs ▸ ha)
+
+theorem stepCore_gradAt_isSome (T : TOps τ) (s2 : State τ) (o : OpInfo τ) (xs ys gys : List τ) (b : Addr) :
+    ((stepCore T s2 o xs ys gys).gradAt b).isSome = (s2.gradAt b).isSome := by
+  unfold stepCore
+  split
+  · split <;> rfl
+  · rfl
+  · rw [gradAt_addContribs, accGrads_isSome]
+
+theorem backwardStep_gradsBelow (T : TOps τ) (k : Nat) (s s1 : State τ) (hg : GradsBelow (k + 1) s)
+    (hw : ArgsBelow s) (hb : backwardStep T s k = (s1, .ok ())) : GradsBelow k s1 := by
+  rw [backwardStep_eq] at hb
+  cases ho : s.ops[k]? with
+  | none => rw [ho] at hb; cases hb
+  | some o =>
+    rw [ho] at hb
+    simp only at hb
+    by_cases he : (!o.enabled) = true
+    · rw [if_pos he] at hb
+      cases hb
+      intro a ha
+      by_cases hak : a.oid = k
+      · have hne : ¬ ∃ j, (s.gradAt ⟨k, j⟩).isSome = true := by
+          rw [← enabled_iff ho]; simpa using he
+        cases hga : s.gradAt a with
+        | none => rfl
+        | some g =>
+          exfalso; apply hne
+          refine ⟨a.vid, ?_⟩
+          have : a = ⟨k, a.vid⟩ := by cases a; simp_all
+          rw [← this, hga]; rfl
+      · exact hg a (by omega)
+    · rw [if_neg he] at hb
+      cases hxs : o.args.mapM s.valueOf? with
+      | none => rw [hxs] at hb; cases hb
+      | some xs =>
+        rw [hxs] at hb
+        simp only at hb
+        cases hb
+        intro a ha
+        rw [gradAt_invalidateGrads]
+        by_cases hak : a.oid = k
+        · simp [hak]
+        · simp only [hak, if_false]
+          have h1 := stepCore_gradAt_isSome T (zeroFill T (zeroFill T s (retAddrs k o)) o.args) o xs o.ys (o.gys T) a
+          have h2 : (zeroFill T (zeroFill T s (retAddrs k o)) o.args).gradAt a = none := by
+            rw [gradAt_zeroFill, gradAt_zeroFill]
+            have hna : a ∉ o.args := fun hm => by have := hw k o ho a hm; omega
+            have hnr : a ∉ retAddrs k o := fun hm => hak ((mem_retAddrs k o a).mp hm).1
+            simp only [hna, hnr, if_false]
+            exact hg a (by omega)
+          rw [h2] at h1
+          cases hga : (stepCore T (zeroFill T (zeroFill T s (retAddrs k o)) o.args) o xs o.ys (o.gys T)).gradAt a with
+          | none => rfl
+          | some g => rw [hga] at h1; simp at h1
+
+theorem sweep_gradsBelow (T : TOps τ) (k : Nat) (s s' : State τ) (hg : GradsBelow k s) (hw : ArgsBelow s)
+    (hs : sweep T k s = (s', .ok ())) : AllGradsInvalid s' := by
+  have := sweep_inv_ok T (fun k s => GradsBelow k s ∧ ArgsBelow s)
+    (fun k s s1 h hb => ⟨backwardStep_gradsBelow T k s s1 h.1 h.2 hb,
+      argsBelow_of_skel (by have := backwardStep_sameFrame T s k; rw [hb] at this; exact this.skel) h.2⟩)
+    k s s' ⟨hg, hw⟩ hs
+  intro a
+  exact this.1 a (Nat.zero_le _)
+
+theorem gradsBelow_seed (T : TOps τ) (s : State τ) (a : Addr) (h : AllGradsInvalid s) :
+    GradsBelow (a.oid + 1) (seed T s a) := by
+  intro b hb
+  rw [gradAt_seed]
+  have : b ≠ a := fun e => by rw [e] at hb; omega
+  simp [this, h b]
+
+/-- if all node gradients are invalid before `backward` and it succeeds, all are invalid after it -/
+theorem backward_allGradsInvalid (T : TOps τ) (s s' : State τ) (a : Addr) (hg : AllGradsInvalid s)
+    (hw : ArgsBelow s) (hb : backward T s a = (s', .ok ())) : AllGradsInvalid s' := by
+  rw [backward_eq] at hb
+  split at hb
+  · cases hb
+  · have hf := fwdPhase_fwdFrame T s a
+    rcases hp : fwdPhase T s a with ⟨s1, r⟩
+    rw [hp] at hb hf
+    cases r with
+    | error e => cases hb
+    | ok u =>
+      cases u
+      simp only at hb hf
+      have hg1 : AllGradsInvalid s1 := fun b => by rw [gskel_gradAt hf.gskel]; exact hg b
+      have hw1 : ArgsBelow s1 := argsBelow_of_gskel hf.gskel hw
+      exact sweep_gradsBelow T _ _ s' (gradsBelow_seed T s1 a hg1)
+        (argsBelow_of_skel (seed_sameFrame T s1 a).skel hw1) hb
+
+/-! ### ancestors -/
+
+def State.argsOf (s : State τ) (i : Nat) : List Addr :=
+  match s.ops[i]? with
+  | some o => o.args
+  | none => []
+
+def State.kindAt (s : State τ) (i : Nat) : Option (Kind τ) := (s.ops[i]?).map (·.kind)
+
+/-- `Anc args i j`: operator `i` is operator `j` or produces a (transitive) argument of it -/
+inductive Anc (args : Nat → List Addr) : Nat → Nat → Prop
+  | refl (j : Nat) : Anc args j j
+  | step {i j : Nat} {a : Addr} : a ∈ args j → Anc args i a.oid → Anc args i j
+
+theorem Anc.arg {args : Nat → List Addr} {k t : Nat} {a : Addr} (h : Anc args k t) (ha : a ∈ args k) :
+    Anc args a.oid t := by
+  induction h with
+  | refl => exact Anc.step ha (Anc.refl _)
+  | step hb _ ih => exact Anc.step hb ih
+
+theorem argsOf_of_skel {s s' : State τ} (h : s'.skel = s.skel) : s'.argsOf = s.argsOf := by
+  funext i
+  unfold State.argsOf
+  cases ho : s.ops[i]? with
+  | none =>
+    have := skel_op h i
+    rw [ho] at this
+    cases h' : s'.ops[i]? with
+    | none => rfl
+    | some o' => rw [h'] at this; simp at this
+  | some o =>
+    obtain ⟨o', ho', _, ha, _⟩ := skel_op_some h ho
+    rw [ho']; exact ha
+
+theorem argsOf_of_gskel {s s' : State τ} (h : s'.gskel = s.gskel) : s'.argsOf = s.argsOf := by
+  funext i
+  unfold State.argsOf
+  cases ho : s.ops[i]? with
+  | none => rw [gskel_op_none h ho]
+  | some o =>
+    obtain ⟨o', ho', _, ha, _⟩ := gskel_op_some h ho
+    rw [ho']; exact ha
+
+theorem kindAt_of_skel {s s' : State τ} (h : s'.skel = s.skel) : s'.kindAt = s.kindAt := by
+  funext i
+  unfold State.kindAt
+  cases ho : s.ops[i]? with
+  | none =>
+    have := skel_op h i
+    rw [ho] at this
+    cases h' : s'.ops[i]? with
+    | none => rfl
+    | some o' => rw [h'] at this; simp at this
+  | some o =>
+    obtain ⟨o', ho', hk, _, _⟩ := skel_op_some h ho
+    rw [ho']; simp [hk]
+
+theorem kindAt_of_gskel {s s' : State τ} (h : s'.gskel = s.gskel) : s'.kindAt = s.kindAt := by
+  funext i
+  unfold State.kindAt
+  cases ho : s.ops[i]? with
+  | none => rw [gskel_op_none h ho]
+  | some o =>
+    obtain ⟨o', ho', hk, _, _⟩ := gskel_op_some h ho
+    rw [ho']; simp [hk]
+
+theorem argsOf_eq {s : State τ} {k : Nat} {o : OpInfo τ} (ho : s.ops[k]? = some o) : s.argsOf k = o.args := by
+  simp [State.argsOf, ho]
+
+/-- every valid node gradient sits on an ancestor of operator `t` -/
+def OnlyAnc (args : Nat → List Addr) (t : Nat) (s : State τ) : Prop :=
+  ∀ b, (s.gradAt b).isSome = true → Anc args b.oid t
+
+theorem zeroFill_gradAt_isSome (T : TOps τ) (s : State τ) (l : List Addr) (b : Addr)
+    (h : ((zeroFill T s l).gradAt b).isSome = true) : b ∈ l ∨ (s.gradAt b).isSome = true := by
+  rw [gradAt_zeroFill] at h
+  by_cases hm : b ∈ l
+  · exact Or.inl hm
+  · simp only [hm, if_false] at h; exact Or.inr h
+
+theorem enabled_anc {s : State τ} {k t : Nat} {o : OpInfo τ} (ho : s.ops[k]? = some o)
+    (he : ¬ (!o.enabled) = true) (h : OnlyAnc s.argsOf t s) : Anc s.argsOf k t := by
+  have : o.enabled = true := by simpa using he
+  obtain ⟨j, hj⟩ := (enabled_iff ho).mp this
+  exact h ⟨k, j⟩ hj
+
+theorem backwardStep_onlyAnc (T : TOps τ) (t k : Nat) (s : State τ) (h : OnlyAnc s.argsOf t s) :
+    OnlyAnc s.argsOf t (backwardStep T s k).1 := by
+  rw [backwardStep_eq]
+  cases ho : s.ops[k]? with
+  | none => exact h
+  | some o =>
+    simp only
+    by_cases he : (!o.enabled) = true
+    · rw [if_pos he]; exact h
+    · rw [if_neg he]
+      have hk : Anc s.argsOf k t := enabled_anc ho he h
+      have h1 : OnlyAnc s.argsOf t (zeroFill T s (retAddrs k o)) := by
+        intro b hb
+        rcases zeroFill_gradAt_isSome T s _ b hb with hm | hs
+        · rw [((mem_retAddrs k o b).mp hm).1]; exact hk
+        · exact h b hs
+      cases hxs : o.args.mapM s.valueOf? with
+      | none => exact h1
+      | some xs =>
+        simp only
+        intro b hb
+        rw [gradAt_invalidateGrads] at hb
+        by_cases hbk : b.oid = k
+        · simp [hbk] at hb
+        · simp only [hbk, if_false, stepCore_gradAt_isSome] at hb
+          rcases zeroFill_gradAt_isSome T _ _ b hb with hm | hs
+          · exact hk.arg (by rw [argsOf_eq ho]; exact hm)
+          · exact h1 b hs
+
+theorem stepCore_pgrad (T : TOps τ) (s2 : State τ) (o : OpInfo τ) (xs ys gys : List τ) (p : Nat)
+    (hne : o.kind ≠ .param p) : (stepCore T s2 o xs ys gys).params.grad p = s2.params.grad p := by
+  unfold stepCore
+  split
+  · rename_i p' hk
+    have hpp : p ≠ p' := fun e => hne (by rw [hk, e])
+    split
+    · simp [hpp]
+    · rfl
+  · rfl
+  · simp
+
+theorem backwardStep_pgrad (T : TOps τ) (t k p : Nat) (s : State τ) (h : OnlyAnc s.argsOf t s)
+    (hp : ∀ i, s.kindAt i = some (.param p) → ¬ Anc s.argsOf i t) :
+    (backwardStep T s k).1.params.grad p = s.params.grad p := by
+  rw [backwardStep_eq]
+  cases ho : s.ops[k]? with
+  | none => rfl
+  | some o =>
+    simp only
+    by_cases he : (!o.enabled) = true
+    · rw [if_pos he]
+    · rw [if_neg he]
+      have hk : Anc s.argsOf k t := enabled_anc ho he h
+      cases hxs : o.args.mapM s.valueOf? with
+      | none => simp
+      | some xs =>
+        simp only [invalidateGrads_params]
+        rw [stepCore_pgrad]
+        · simp
+        · intro hkind
+          exact hp k (by simp [State.kindAt, ho, hkind]) hk
+
+/-- the gradient of a parameter none of whose Parameter operators is an ancestor of `t` is not written -/
+theorem sweep_pgrad (T : TOps τ) (t p : Nat) (k : Nat) (s : State τ) (h : OnlyAnc s.argsOf t s)
+    (hp : ∀ i, s.kindAt i = some (.param p) → ¬ Anc s.argsOf i t) :
+    (sweep T k s).1.params.grad p = s.params.grad p := by
+  have := sweep_inv T
+    (fun s' => s'.argsOf = s.argsOf ∧ s'.kindAt = s.kindAt ∧ OnlyAnc s.argsOf t s' ∧ s'.params.grad p = s.params.grad p)
+    (fun k s' ⟨ha, hk, ho, hg⟩ => by
+      have hf := backwardStep_sameFrame T s' k
+      refine ⟨(argsOf_of_skel hf.skel).trans ha, (kindAt_of_skel hf.skel).trans hk, ?_, ?_⟩
+      · have := backwardStep_onlyAnc T t k s' (ha ▸ ho)
+        rw [ha] at this; exact this
+      · rw [← hg]
+        exact backwardStep_pgrad T t k p s' (ha ▸ ho) (by rw [ha, hk]; exact hp))
+    k s ⟨rfl, rfl, h, rfl⟩
+  exact this.2.2.2
+
+theorem onlyAnc_seed (T : TOps τ) (s : State τ) (a : Addr) (h : AllGradsInvalid s) :
+    OnlyAnc (seed T s a).argsOf a.oid (seed T s a) := by
+  intro b hb
+  rw [gradAt_seed] at hb
+  by_cases hba : b = a
+  · rw [hba]; exact Anc.refl _
+  · simp [hba, h b] at hb
+
+theorem backward_pgrad (T : TOps τ) (s : State τ) (a : Addr) (p : Nat) (hg : AllGradsInvalid s)
+    (hp : ∀ i, s.kindAt i = some (.param p) → ¬ Anc s.argsOf i a.oid) :
+    (backward T s a).1.params.grad p = s.params.grad p := by
+  rw [backward_eq]
+  split
+  · rfl
+  · have hf := fwdPhase_fwdFrame T s a
+    rcases hph : fwdPhase T s a with ⟨s1, r⟩
+    rw [hph] at hf
+    cases r with
+    | error e => simp only; rw [hf.params]
+    | ok u =>
+      cases u
+      simp only at hf ⊢
+      have hg1 : AllGradsInvalid s1 := fun b => by rw [gskel_gradAt hf.gskel]; exact hg b
+      have hsf := seed_sameFrame T s1 a
+      have hargs : (seed T s1 a).argsOf = s.argsOf := (argsOf_of_skel hsf.skel).trans (argsOf_of_gskel hf.gskel)
+      have hkind : (seed T s1 a).kindAt = s.kindAt := (kindAt_of_skel hsf.skel).trans (kindAt_of_gskel hf.gskel)
+      rw [sweep_pgrad T a.oid p _ _ (onlyAnc_seed T s1 a hg1) (by rw [hargs, hkind]; exact hp)]
+      simp [hf.params]
+
+
+/-! ### accumulation -/
+
+theorem ops_eq_of_skel_grad {s s' : State τ} (h : s'.skel = s.skel) (hg : ∀ a, s'.gradAt a = s.gradAt a) :
+    s'.ops = s.ops := by
+  apply List.ext_getElem?
+  intro i
+  cases ho : s.ops[i]? with
+  | none =>
+    have := skel_op h i
+    rw [ho] at this
+    cases h' : s'.ops[i]? with
+    | none => rfl
+    | some o' => rw [h'] at this; simp at this
+  | some o =>
+    obtain ⟨o', ho', hk, ha, hr⟩ := skel_op_some h ho
+    rw [ho']
+    have hrets : o'.rets = o.rets := by
+      apply List.ext_getElem?
+      intro j
+      have h1 := congrArg (fun l => l[j]?) hr
+      simp only [List.getElem?_map] at h1
+      have h2 := hg ⟨i, j⟩
+      simp only [State.gradAt, ops_getElem?_node? ho', ops_getElem?_node? ho] at h2
+      cases hn' : o'.rets[j]? with
+      | none =>
+        cases hn : o.rets[j]? with
+        | none => rfl
+        | some n => rw [hn', hn] at h1; simp at h1
+      | some n' =>
+        cases hn : o.rets[j]? with
+        | none => rw [hn', hn] at h1; simp at h1
+        | some n =>
+          rw [hn', hn] at h1 h2
+          simp only [Option.map_some, Option.some.injEq, NodeInfo.skel, Prod.mk.injEq, Option.bind_some] at h1 h2
+          cases n'; cases n; simp_all
+    cases o'; cases o; simp_all
+
+/-- a state whose node gradients are all invalid is determined by its frame and parameter gradients -/
+theorem eq_mapPG_of_sameFrame {s s' : State τ} (h : SameFrame s s') (hg : AllGradsInvalid s)
+    (hg' : AllGradsInvalid s') : s' = s.mapPG (fun _ => s'.params.grad) := by
+  have hops := ops_eq_of_skel_grad h.skel (fun a => by rw [hg a, hg' a])
+  have h2 := h.pvalue; have h3 := h.log; have h4 := h.rndPos; have h5 := h.sample; have h6 := h.failIn
+  cases s' with
+  | mk ops' params' log' rndPos' sample' failIn' =>
+    cases params'
+    cases s with
+    | mk ops params log rndPos sample failIn =>
+      cases params
+      simp_all [State.mapPG]
+
+def addN (T : TOps τ) : Nat → τ → τ → τ
+  | 0, g, _ => g
+  | k + 1, g, d => T.add (addN T k g d) d
+
+theorem addN_add (T : TOps τ) (k : Nat) (g d : τ) : addN T k (T.add g d) d = addN T (k + 1) g d := by
+  induction k with
+  | zero => rfl
+  | succ k ih => simp only [addN] at ih ⊢; rw [ih]
+
+/-- `k` consecutive calls of `backward` on the same node -/
+def iterBackward (T : TOps τ) (a : Addr) : Nat → State τ → State τ
+  | 0, s => s
+  | k + 1, s => iterBackward T a k (backward T s a).1
+
+theorem mapPG_mapPG (f f' : (Nat → τ) → (Nat → τ)) (s : State τ) :
+    (s.mapPG f).mapPG f' = s.mapPG (fun g => f' (f g)) := rfl
+
+theorem mapPG_self (s : State τ) : s.mapPG (fun _ => s.params.grad) = s := rfl
+
+theorem mapPG_allGradsInvalid (f : (Nat → τ) → (Nat → τ)) {s : State τ} (h : AllGradsInvalid s) :
+    AllGradsInvalid (s.mapPG f) := h
+
+theorem mapPG_argsBelow (f : (Nat → τ) → (Nat → τ)) {s : State τ} (h : ArgsBelow s) :
+    ArgsBelow (s.mapPG f) := h
+
+/-- the result from any prior gradient `g` is `g` plus the result from the zero gradient `z` -/
+theorem backward_adds_gen (T : TOps τ) (hassoc : ∀ x y z : τ, T.add (T.add x y) z = T.add x (T.add y z))
+    (s : State τ) (a : Addr) (z : Nat → τ) (hz : ∀ p x, T.add x (z p) = x) :
+    backward T s a =
+      ((backward T (s.mapPG fun _ => z) a).1.mapPG (shiftG T s.params.grad),
+       (backward T (s.mapPG fun _ => z) a).2) := by
+  have h := backward_shift T hassoc s.params.grad a (s.mapPG fun _ => z)
+  simp only at h
+  rw [← h, mapPG_mapPG]
+  have : (fun _ : Nat → τ => shiftG T s.params.grad z) = fun _ => s.params.grad := by
+    funext _ p; exact hz p _
+  rw [this, mapPG_self]
+
+/-- when the forward phase is a no-op, a successful `backward` from all-invalid node gradients changes
+the parameter gradients only -/
+theorem backward_eq_mapPG (T : TOps τ) (s : State τ) (a : Addr) (hg : AllGradsInvalid s) (hw : ArgsBelow s)
+    (hstable : fwdPhase T s a = (s, .ok ())) (hok : (backward T s a).2 = .ok ()) :
+    (backward T s a).1 = s.mapPG (fun _ => (backward T s a).1.params.grad) := by
+  have hb : backward T s a = ((backward T s a).1, .ok ()) := by rw [← hok]
+  have hg' := backward_allGradsInvalid T s _ a hg hw hb
+  refine eq_mapPG_of_sameFrame ?_ hg hg'
+  rw [backward_eq]
+  split
+  · exact SameFrame.refl s
+  · rw [hstable]
+    exact (seed_sameFrame T s a).trans (sweep_sameFrame T _ _)
+
+theorem iterBackward_grad (T : TOps τ) (hassoc : ∀ x y z : τ, T.add (T.add x y) z = T.add x (T.add y z))
+    (s : State τ) (a : Addr) (z : Nat → τ) (hz : ∀ p x, T.add x (z p) = x)
+    (hg : AllGradsInvalid s) (hw : ArgsBelow s)
+    (hstable : fwdPhase T s a = (s, .ok ())) (hok : (backward T s a).2 = .ok ()) (k : Nat) :
+    iterBackward T a k s =
+      s.mapPG (fun _ p => addN T k (s.params.grad p) ((backward T (s.mapPG fun _ => z) a).1.params.grad p)) := by
+  -- D and the one-call lemma for an arbitrary prior gradient
+  have hok0 : (backward T (s.mapPG fun _ => z) a).2 = .ok () := by
+    have := backward_adds_gen T hassoc s a z hz
+    rw [this] at hok; exact hok
+  have hst0 : fwdPhase T (s.mapPG fun _ => z) a = (s.mapPG (fun _ => z), .ok ()) := by
+    have := fwdPhase_mapPG T (fun _ => z) a s
+    simp only at this
+    rw [this, hstable]
+  have hr0 := backward_eq_mapPG T (s.mapPG fun _ => z) a hg hw hst0 hok0
+  have one : ∀ g : Nat → τ, backward T (s.mapPG fun _ => g) a =
+      (s.mapPG (fun _ p => T.add (g p) ((backward T (s.mapPG fun _ => z) a).1.params.grad p)), .ok ()) := by
+    intro g
+    have h := backward_adds_gen T hassoc (s.mapPG fun _ => g) a z hz
+    rw [mapPG_mapPG] at h
+    rw [h, hok0, hr0]
+    rfl
+  have gen : ∀ (k : Nat) (g : Nat → τ), iterBackward T a k (s.mapPG fun _ => g) =
+      s.mapPG (fun _ p => addN T k (g p) ((backward T (s.mapPG fun _ => z) a).1.params.grad p)) := by
+    intro k
+    induction k with
+    | zero => intro g; rfl
+    | succ k ih =>
+      intro g
+      simp only [iterBackward]
+      rw [one g]
+      simp only
+      rw [ih]
+      congr 1
+      funext _ p
+      exact addN_add T k _ _
+  have := gen k s.params.grad
+  rw [mapPG_self] at this
+  exact this
+
 end Primitiv.Graph
